@@ -18,7 +18,8 @@ An abstract Unix filesystem for C07, written from POSIX path-resolution rules (`
   `..` denotes a directory that already exists (mkdir → EEXIST, open(O_CREAT) → EISDIR).
 * The string handed to a system call is abstracted to what the kernel sees of it: the list of its
   components (`Comp.normal` / `Comp.parentDir`, `Comp.curDir` only as a final "." that the kernel
-  treats as the last component) in REVERSE order (last component first: `Path::parent()` is then the
+  treats as the last component — looking up "." in a directory needs search permission on it like
+  any other name: `chmod("d/.")` fails with EACCES once `d` has mode 000) in REVERSE order (last component first: `Path::parent()` is then the
   tail of the list, and `create_dir_all` recurses structurally), and whether it ends in '/'.
 * Permissions: `Cfg.priv = true` is the superuser (no permission check ever fails).  Otherwise every
   object is taken to be owned by the caller and the owner bits decide: search (x) on every directory
@@ -90,7 +91,7 @@ def dropPrivs (c : Cfg) (m : Nat) : Nat :=
 /-- One step of kernel path resolution from the existing directory `cur`. -/
 def step (c : Cfg) (fs : FS) (cur : Path) : Comp → Except FsErr Path
   | .rootDir => .ok []
-  | .curDir => .ok cur
+  | .curDir => if canSearch c fs cur then .ok cur else .error .permissionDenied
   | .parentDir => if canSearch c fs cur then .ok cur.dropLast else .error .permissionDenied
   | .normal s =>
     if canSearch c fs cur then
